@@ -202,6 +202,10 @@ def nested_call_of_same_function(case):
     """f(... f(...) ...): the textual post-processing of nested identical calls breaks (TypeError at compile time)"""
     def inner_has(ast, f):
         return any(n[0] == "call" and n[1] == f for n in _walk(ast))
+    if case.get("form") == "index_nested":      # index(index(A, j), k)
+        return True
+    if "form" in case:
+        return False
     for ast in _all_asts(case):
         for n in _walk(ast):
             if n[0] == "call" and any(inner_has(a, n[1]) for a in n[2:]):
@@ -765,3 +769,16 @@ def fortran_case_insensitive_name_clash(case):
     if len(set(low)) < len(low):
         return True
     return any(n in ("e", "pi", "i") for n in low)
+
+
+@predicate("F-05e")
+def parameter_index_with_vector_result(case):
+    """index_range(v, j, k) / index_axis(A, k, 1) whose index is an operator parameter (not a literal), compiled through
+    an operator with a vector-valued state: the scalar index parameter gets shape (1,)"""
+    return case.get("form") in ("index_range", "index_axis1") and not case.get("literal") and case.get("path") == "codegen"
+
+
+@predicate("F-05g")
+def index_of_index_axis(case):
+    """index(index_axis(A, k, 1), j) through the generated code: KeyError 'A[:,k]'"""
+    return case.get("form") == "index_of_axis" and case.get("path") == "codegen"
